@@ -266,7 +266,9 @@ package filtering
 //@   modifies engineHit
 
 // What every entry of d.hostCheckers guarantees (each of the six functions installed by New is verified against it).
+// (C19: every checker - the hash-prefix ones included - is handed the lower-cased name, whatever the settings.)
 //@ func (fieldcall) hostChecker_check(host string, qtype uint16, setts *Settings) (res Result, err error)
+//@   requires lower-cased-name: isLower(host)
 //@   ensures res.IsFiltered ==> setts.ProtectionEnabled
 //@   ensures err != nil ==> !res.IsFiltered
 //@   modifies engineHit, epoch
@@ -276,12 +278,16 @@ package filtering
 //@   ensures err == nil
 //@   modifies *
 //@ func (d *DNSFilter) checkSafeBrowsing(host string, _p1 uint16, setts *Settings) (res Result, err error)
-//@   property C01
+//@   property C01,C19
+//@   requires isLower(host)
+//@   callsite (github.com/AdguardTeam/AdGuardHome/internal/filtering.Checker).Check(c, h) requires the-name-as-given: h == host && isLower(h)
 //@   ensures res.IsFiltered ==> old(setts.ProtectionEnabled)
 //@   ensures err != nil ==> !res.IsFiltered
 //@   modifies *
 //@ func (d *DNSFilter) checkParental(host string, _p1 uint16, setts *Settings) (res Result, err error)
-//@   property C01
+//@   property C01,C19
+//@   requires isLower(host)
+//@   callsite (github.com/AdguardTeam/AdGuardHome/internal/filtering.Checker).Check(c, h) requires the-name-as-given: h == host && isLower(h)
 //@   ensures res.IsFiltered ==> old(setts.ProtectionEnabled)
 //@   ensures err != nil ==> !res.IsFiltered
 //@   modifies *
@@ -292,7 +298,7 @@ package filtering
 
 // CheckHost: first matching checker wins; whatever it is, nothing is blocked with protection off.
 //@ func (d *DNSFilter) CheckHost(host string, qtype uint16, setts *Settings) (res Result, err error)
-//@   property C01
+//@   property C01,C19
 //@   requires tableOK(d)
 //@   requires !held(d.confMu) && !rheld(d.confMu)
 //@   ensures protection-off: res.IsFiltered ==> setts.ProtectionEnabled
